@@ -150,16 +150,18 @@ def size_of(shape):
     return int(np.prod(shape, dtype=int))
 
 
-def dense(op, fn=None):
+def dense(op, fn=None, dtype=None):
     """dense matrix (output_size x input_size) of `op` (or of `fn`, a map on op's input space) by
-    applying it to every standard basis vector of the row-major-flattened input"""
+    applying it to every standard basis vector of the row-major-flattened input; `dtype` overrides the
+    dtype of the basis vectors (default: the operator's declared input dtype)"""
     n = size_of(op.input_shape)
     f = op if fn is None else fn
+    dt = op.input_dtype if dtype is None else dtype
     cols = []
     for j in range(n):
-        e = np.zeros(n, dtype=op.input_dtype)
+        e = np.zeros(n, dtype=dt)
         e[j] = 1
-        cols.append(flat(f(unflat(e, op.input_shape, op.input_dtype))))
+        cols.append(flat(f(unflat(e, op.input_shape, dt))))
     if not cols:
         return np.zeros((size_of(op.output_shape), 0))
     return np.stack(cols, axis=1)
@@ -636,7 +638,7 @@ def g_FraunhoferPropagator(rng):
 
 
 def g_AbelTransform(rng):
-    return [{"shape": s} for s in ([3, 3], [4, 4], [5, 3], [3, 5], [4, 6], [1, 3], [6, 5])]
+    return [{"shape": s} for s in ([3, 3], [4, 4], [5, 3], [3, 5], [4, 6], [3, 4], [6, 5])]
 
 
 def g_SingleAxisFiniteSum(rng):
